@@ -161,6 +161,7 @@ def grid_designs():
     out += index_designs(k)
     out += vslice_designs()
     out += branchy_comb_designs()
+    out += barelist_designs()
     out += func_designs(k + 1000)
     out += deep_designs(k + 2000)
     return out
@@ -321,6 +322,39 @@ def branchy_comb_designs():
         for j in range(1, n):
             acc = xor(acc, rd(View(ys[j])), 4)
         blk(d, "c0", (), [as_(View(o), acc)])
+        d.family = "grid"
+        out.append(d)
+    return out
+
+
+def barelist_designs():
+    """A list of signals (1, 2 and 3 dimensions) read through its BARE NAME (`for plane in s.g: for row in plane:
+    for x in row: acc = acc + x`): every element is in the read set of the block, so every block driving an
+    element runs before it.  Elements driven by their own blocks and by a net.
+    Added after seeded change C01-E (the flattening of deep lists cut at two levels)."""
+    out = []
+    for k, dims in enumerate(((4,), (2, 3), (2, 2, 3), (2, 1, 2, 2))):
+        d = _mk("BL%d" % k)
+        n = 1
+        for dd in dims:
+            n *= dd
+        a = d.add_sig((), "a", "in", 4)
+        b = d.add_sig((), "b", "in", 4)
+        g = [d.add_sig((), "g%d" % j, "wire", 4, arr=("g", j, n, dims) if len(dims) > 1 else ("g", j, n)) for j in range(n)]
+        o = d.add_sig((), "o", "out", 4)
+        o2 = d.add_sig((), "o2", "out", 4)
+        for j in range(n):
+            if j == 1:
+                conn(d, View(b), View(g[j]), ())
+            else:
+                blk(d, "w%d" % j, (), [as_(View(g[j]), add(rd(View(a)), lit(4, (5 * j + 1) % 16), 4))])
+        acc = rd(View(g[0]))
+        for j in range(1, n):
+            acc = add(acc, rd(View(g[j])), 4)
+        st = as_(View(o), add(lit(4, 0), acc, 4)) if False else as_(View(o), acc)
+        st["render"], st["arr"] = "bareloop", g
+        blk(d, "r0", (), [st])
+        blk(d, "r1", (), [as_(View(o2), add(rd(View(o)), lit(4, 1), 4))])
         d.family = "grid"
         out.append(d)
     return out
